@@ -108,7 +108,7 @@ func (h *fnv64) u32(v uint32) {
 // generators
 // ---------------------------------------------------------------------------------------------
 
-var embPool = []string{"git", "commit", "tar", "compress", "files", "list", "directory", "docker", "run", "container",
+var embPool = []string{"ls", "cp", "git", "commit", "tar", "compress", "files", "list", "directory", "docker", "run", "container",
 	"find", "search", "text", "network", "copy", "remove", "archive", "zip", "show", "disk"}
 
 func randVecBits(r *Rng, dim int, family int) []uint32 {
@@ -722,17 +722,31 @@ func execLoadEmb(g, c, op string, mon *Mon) string {
 	if f[0] != "err=false" {
 		mon.Hit("C19", "loademb-error", map[string]interface{}{"op": op, "result": line})
 	}
+	// what the two loaders themselves say about these files decides what must be attached
+	want := "has=0 words=-1 cmds=-1"
 	if g == "none" {
 		mon.Tag("loademb-no-glove")
-		if len(f) < 2 || f[1] != "has=0" {
-			mon.Hit("C19", "loademb-not-absent", map[string]interface{}{"op": op, "result": line})
-		}
-	} else if len(f) >= 2 && f[1] == "has=1" {
+	} else if wl := strings.Fields(runLoader("wv", 100, []byte(UnHx(g)), &Mon{}, op)); len(wl) >= 2 && wl[0] == "ok" {
 		mon.Tag("loademb-index")
+		cmds := "0"
+		if c != "none" {
+			if cl := strings.Fields(runLoader("ce", 100, []byte(UnHx(c)), &Mon{}, op)); len(cl) >= 2 && cl[0] == "ok" {
+				cmds = cl[1]
+			}
+		}
+		want = "has=1 words=" + wl[1] + " cmds=" + cmds
 	} else {
 		mon.Tag("loademb-bad-glove")
 	}
-	return strings.Join(f[1:], " ")
+	got := strings.Join(f[1:], " ")
+	if got != want {
+		cls := "loademb-wrong-index"
+		if want == "has=0 words=-1 cmds=-1" {
+			cls = "loademb-not-absent"
+		}
+		mon.Hit("C19", cls, map[string]interface{}{"op": op, "result": got, "expected": want})
+	}
+	return got
 }
 
 // childLoad runs the loader on `path` in a child process (hostile header counts never run in the
